@@ -49,7 +49,45 @@ def make_dir(rng, root):
                 os.utime(p, (mt, mt))
 
     fill(root, 0)
+    if rng.random() < 0.3:
+        try:
+            with open(os.path.join(os.fsencode(root), b"caf\xe9-latin1.txt"), "wb") as fp:
+                fp.write(b"not utf-8 name")
+            count[0] += 1
+        except OSError:
+            pass
     return count[0]
+
+
+def mutate_dir(rng, root):
+    """Change the directory in place (grow a file, touch it, replace a file by a folder of the same name,
+    add a file).  Returns a short description, or '' if nothing could be changed."""
+    files, dirs = [], [root]
+    for dp, dn, fn in os.walk(root):
+        for f in fn:
+            files.append(os.path.join(dp, f))
+        for d in dn:
+            dirs.append(os.path.join(dp, d))
+    done = []
+    if files:
+        f = rng.choice(files)
+        with open(f, "ab") as fp:
+            fp.write(b"more-bytes")
+        mt = 1_700_000_000 + rng.random() * 1000
+        os.utime(f, (mt, mt))
+        done.append("file grown and touched")
+    if len(files) >= 2:
+        f = files[0] if files[0] != (files and f) else files[1]
+        os.unlink(f)
+        os.mkdir(f)
+        with open(os.path.join(f, "inner.txt"), "wb") as fp:
+            fp.write(b"x")
+        done.append("file replaced by a folder of the same name")
+    d = rng.choice(dirs)
+    with open(os.path.join(d, "zz-new-file"), "wb") as fp:
+        fp.write(b"123")
+    done.append("file added")
+    return ", ".join(done)
 
 
 def ref_walk(path, sort):
@@ -137,6 +175,20 @@ def run_case(case, res):
             t3 = FileSystemTree.load(pth)
             if tree_listing(t3) != got:
                 bad.append("save/load with the class's default mappers changed the listing")
+            # compressed round trip
+            t.save(pth, compression=True)
+            t4 = FileSystemTree.load(pth)
+            if tree_listing(t4) != got:
+                bad.append("compressed save/load changed the listing")
+            # the directory changes and is scanned again in the same process: the second scan mirrors the *new* state
+            changed = mutate_dir(rng, root)
+            if changed:
+                ref2 = ref_walk(root, sort)
+                t5 = load_tree_from_fs(root, sort=sort)
+                got5 = tree_listing(t5)
+                res.count("rescans_after_change")
+                if (got5 != ref2) if sort else (normalize(got5) != normalize(ref2)):
+                    bad.append(f"second scan after the directory changed ({changed}) differs: got {got5!r}, expected {ref2!r}")
     except CaseTimeout:
         res.inconc("case watchdog fired")
     except Exception:
